@@ -65,6 +65,11 @@ def poly_mc(ck):
           what="iterStepPolygonCompact + nextCell as a state machine over an abstract polygon (pentagon + hexagon base cell, target "
                "resolution 1, every oracle satisfying bbox covering / containment soundness): terminates, emits in increasing index "
                "order without nesting or duplicates, expands to exactly the cells passing the leaf test")
+    if not ck.quick:
+        ck.mc("MC_PolyIter2", "MC_PolyIter2.cfg", workers=vlib.NCPU, xmx="24g", timeout=3400,
+              what="the same machine at target resolution 2 under a pentagon base cell (41 target cells): nextCell carries over two "
+                   "levels and skips the deleted child of the pentagon and of its centre child; 5 leaf patterns per resolution-1 cell, "
+                   "loosest / tightest bounding-box answers")
     neg = vlib.tlc("MC_PolyIter", "MC_PolyIter_nocover.cfg", workers=8)
     if neg["verdict"] != "invariant":
         raise vlib.InfraError("negative control (bounding boxes that do not cover the children) was not rejected: %s" % neg["verdict"])
